@@ -352,4 +352,8 @@ def _rest(chk, repo, sm, deferred):
     chk.extra['sessions'] = {'runs': len(res), 'configurations': len({r['vid'] for r in res}), 'policies': sorted({r['policy'] for r in res}),
                              'events_interpreted': sum(r['stats'].get('events', 0) for r in res)}
     if deferred is not None:
-        raise deferred
+        if chk.findings:
+            raise deferred
+        # the hand flows could not be read off the structure: which seat is sent which hand is decided on the abstract sessions above (R4: every
+        # hand text carries its owner and board and is compared with what the protocol entitles the recipient to)
+        chk.note(f'C10.R1 (hand flows by structure) not evaluated: {deferred.why[:200]}; decided by C10.R4 on the abstract sessions')
